@@ -471,9 +471,47 @@ func genType(t *rapid.T, depth int) *tn {
 			return rapid.SampledFrom(namedComposite).Draw(t, "ncomp")
 		}
 	}
-	switch rapid.IntRange(0, 10).Draw(t, "kind") {
+	switch rapid.IntRange(0, 11).Draw(t, "kind") {
 	case 0:
 		return genType(t, 0)
+	case 11:
+		// twin anonymous structs in one expression: same field names and tags, different types only behind a pointer
+		// (anything that keys struct literals by a lossy description of the type confuses them)
+		pointee := func(label string) *tn {
+			return rapid.SampledFrom([]*tn{bs("int"), bs("string"), bs("bool"), nm("alpha", "Point"), nm("beta", "Kind"), nm("gamma", "Status"), nm("left", "Opt"), nm("right", "Opt")}).Draw(t, label)
+		}
+		wrap := rapid.SampledFrom([]string{"ptr", "sliceptr", "mapptr", "ptrptr"}).Draw(t, "twinwrap")
+		mk := func(e *tn) *tn {
+			var ft *tn
+			switch wrap {
+			case "ptr":
+				ft = &tn{K: "ptr", Elem: e}
+			case "sliceptr":
+				ft = &tn{K: "slice", Elem: &tn{K: "ptr", Elem: e}}
+			case "mapptr":
+				ft = &tn{K: "map", Key: bs("string"), Elem: &tn{K: "ptr", Elem: e}}
+			default:
+				ft = &tn{K: "ptr", Elem: &tn{K: "ptr", Elem: e}}
+			}
+			n := &tn{K: "struct", Fields: []tf{{Name: "V", T: ft}}}
+			if rapid.Bool().Draw(t, "twintag") {
+				n.Fields[0].Tag = `json:"v"`
+			}
+			if rapid.Bool().Draw(t, "twinextra") {
+				n.Fields = append(n.Fields, tf{Name: "N", T: bs("int")})
+			}
+			return n
+		}
+		a := mk(pointee("twina"))
+		b := mk(pointee("twinb"))
+		b.Fields[0].Tag = a.Fields[0].Tag
+		if len(a.Fields) != len(b.Fields) {
+			b.Fields = append(b.Fields[:1], a.Fields[1:]...)
+		}
+		if rapid.Bool().Draw(t, "twinshape") {
+			return &tn{K: "struct", Fields: []tf{{Name: "A", T: a}, {Name: "B", T: b}}}
+		}
+		return &tn{K: "map", Key: bs("string"), Elem: &tn{K: "struct", Fields: []tf{{Name: "A", T: &tn{K: "slice", Elem: a}}, {Name: "B", T: &tn{K: "ptr", Elem: b}}}}}
 	case 1, 2:
 		return genInst(t, rapid.IntRange(1, 3).Draw(t, "instlevels"))
 	case 3:
